@@ -89,6 +89,10 @@ def explore(repo):
         return orig_call_path(I, name, args, node)
     world.call_path = call_path
     I = Interp(prog, world, stubs={'Config::load_project': load_project}, max_paths=20000)
+    # three directories: a terminating walk never nests deeper than a few frames per directory; a path that exceeds the bound is
+    # reported as a candidate non-termination (confirmed or not on the real binary) instead of making the check inconclusive
+    I.diverge_is_outcome = True
+    I.depth_bound = 40
     load_fd = prog.find_fn('yaml::Config::load')
     from_fds = [fd for fd in prog.fns_by_name.get('from', []) if fd.module == ('config', 'ir')]
 
@@ -242,7 +246,7 @@ def run(prop, tier, seed, repo, jobs):
                 # the documented rules, evaluated on the concrete arrangement: a valid one must be accepted by the real binary
                 confirmed = concrete_valid(ob['case']) and rc != 0
             else:
-                confirmed = rc not in (0, 1)
+                confirmed = rc not in (0, 1)        # a crash (e.g. stack overflow: 134) or a run stopped by the timeout (-9 / 124)
         except Exception as ex:   # pragma: no cover
             runs, confirmed = [str(ex)], False
         json.dump({'kind': 'c14', 'obligation': ob, 'native': runs, 'confirmed': confirmed}, open(rpath, 'w'), indent=1, default=str)
